@@ -17,6 +17,18 @@ type smsSent struct {
 	alt          *smsSent // previous record that may still be current (sending request hit a backend fault)
 }
 
+// find returns the first unconsumed record of the chain (the latest code and,
+// behind it, the ones a faulted sending request may have left current) that
+// matches code and number.
+func (p *smsSent) find(code, number string) *smsSent {
+	for ; p != nil; p = p.alt {
+		if !p.consumed && p.code == code && p.number == number {
+			return p
+		}
+	}
+	return nil
+}
+
 type monC02 struct {
 	last     []*smsSent      // per browser: latest code sent on behalf of that browser's session
 	spentRec map[string]bool // recovery codes the monitor saw complete a login (storage is not trusted to have consumed them)
